@@ -135,7 +135,7 @@ Proof.
   { intros n Hn. apply (wf_nss _ HW). destruct (collect_keys _ _ _ _ EC n Hn) as [->|Hn'].
     - apply root_ns_in_tree_nss. reflexivity.
     - apply (order_ok_same_set _ _ HO). exact Hn'. }
-  pose proof HW as HW0. cbn [wf_node] in HW. destruct HW as [H1 [H2 [H3 [H4 [H5 [H6 H7]]]]]]. apply wf_fix in H7.
+  pose proof HW as HW0. cbn [wf_node] in HW. destruct HW as [H1 [H2 [H3 [H4 [H5 [H6 H7]]]]]]. apply wf_fix in H7. apply attrs_wf0 in H4.
   set (E0 := decl_env (declared_attributes pm) ++ initial_env).
   assert (OR : open_element initial_env (qname pm ns name) (root_tok_attrs pm attrs) = Some (E0, ns, name, attrs)).
   { apply (open_root pm PF); try assumption.
